@@ -48,6 +48,12 @@ impl RandomAccess for FaultFile {
         if f == Fault::IoError {
             return Err(Status::new(StatusCode::IOError, "injected read failure"));
         }
+        if f == Fault::None {
+            // no fault: the crate's own in-memory source (`impl RandomAccess for Vec<u8>`) serves the read,
+            // including reads at or beyond the end of the file (declared size larger than the file)
+            let v: &Vec<u8> = &self.data;
+            return v.read_at(off, dst);
+        }
         let normal = if off > self.data.len() { 0 } else { dst.len().min(self.data.len() - off) };
         let n = match f {
             Fault::Short(k) => k.min(normal),
@@ -205,7 +211,7 @@ impl Session {
                         "-".to_string()
                     }),
                     Op::Valid(i) => with_it!(i, it, format!("{}", it.valid())),
-                    Op::Cur(i) => with_it!(i, it, show_kv(&current_key_val(it))),
+                    Op::Cur(i) => with_it!(i, it, { let a = dirty_current(it); let b = current_key_val(it); if a == b { show_kv(&a) } else { format!("current-with-recycled-buffers:{}/helper:{}", show_kv(&a), show_kv(&b)) } }),
                     Op::Key(i) => with_it!(i, it, it.current_key().map(|k| hex(k)).unwrap_or("none".into())),
                     Op::Drop(t) => {
                         tables.remove(t);
